@@ -87,6 +87,9 @@ func (d *Data) CreateComposite(request datastore.Request, reply *datastore.Respo
 	blockEnd := imageblk.NewTKey(extents.MaxIndex)
 	err = store.ProcessRange(ctx, blockBeg, blockEnd, chunkOp, storage.ChunkFunc(d.CreateCompositeChunk))
 	wg.Wait()
+	if err != nil {
+		return err
+	}
 
 	// Set new mapped data to same extents.
 	composite.Properties.Extents = grayscale.Properties.Extents
